@@ -51,6 +51,21 @@ def gen_hierarchy(r, prefix, shape=None):
     n = r.randint(2, 6)
     shape = shape or r.choice(["tree", "tree", "tree", "diamond", "tworoots"])
     nm = lambda i: "%se%d" % (prefix, i)
+    if shape.startswith("flat"):
+        # one supertype over 3 or 4 direct subtypes whose expression nests one operator directly inside another:
+        # a OUTER (b INNER c [INNER d]) or (a INNER b) OUTER c [OUTER d]
+        _, outer, inner, side = shape.split(":")
+        m = r.choice([3, 3, 4])
+        h.ents.append({"name": nm(0), "supers": [], "abstract": r.random() < 0.3, "expr": None})
+        for i in range(1, m + 1):
+            h.ents.append({"name": nm(i), "supers": [nm(0)], "abstract": False, "expr": None})
+        subs = [nm(i) for i in range(1, m + 1)]
+        r.shuffle(subs)
+        if side == "right":
+            h.ents[0]["expr"] = (outer, [("L", subs[0]), (inner, [("L", x) for x in subs[1:]])])
+        else:
+            h.ents[0]["expr"] = (outer, [(inner, [("L", x) for x in subs[:2]])] + [("L", x) for x in subs[2:]])
+        return h
     if shape == "tree":
         for i in range(n):
             h.ents.append({"name": nm(i), "supers": [] if i == 0 else [nm(r.randrange(0, i))], "abstract": False, "expr": None})
@@ -220,6 +235,9 @@ def main(tier, seed):
         for j in range(per_schema):
             shape = ["tree", "diamond", "tworoots"][j % 3] if j < 6 else None
             hs.append(gen_hierarchy(r, "h%d_" % j, shape))
+        # every operator directly inside every operator, on either side
+        for j2, (outer, inner) in enumerate(itertools.product("OAR", repeat=2)):
+            hs.append(gen_hierarchy(r, "f%d_" % j2, "flat:%s:%s:%s" % (outer, inner, ["right", "left"][(j2 + k) % 2])))
         text = render(hs, "cx_%d_%d" % (seed, k))
         fexp = os.path.join(wroot, "cx_%d.exp" % k)
         open(fexp, "w").write(text)
@@ -232,14 +250,14 @@ def main(tier, seed):
         queries = []
         for hi, h in enumerate(hs):
             names = [e["name"] for e in h.ents]
-            for n in range(2, len(names) + 1):
+            for n in range(1, len(names) + 1):
                 for S in itertools.combinations(names, n):
                     queries.append((hi, S))
         # a few sets across hierarchies: never legal
         for _ in range(6):
             a, b = r.sample(range(per_schema), 2)
             queries.append((None, (hs[a].ents[0]["name"], hs[b].ents[0]["name"])))
-        rc, out, err = sh([exe], input=("\n".join("S " + " ".join(q[1]) for q in queries) + "\n").encode(), timeout=1800, env={"ASAN_OPTIONS": "detect_leaks=0"})
+        rc, out, err = sh([exe], input=("\n".join(("C " if len(q[1]) == 1 else "S ") + " ".join(q[1]) for q in queries) + "\n").encode(), timeout=1800, env={"ASAN_OPTIONS": "detect_leaks=0"})
         got = out.split("\n")
         # model, one driver process per hierarchy
         for hi, h in enumerate(hs):
@@ -355,8 +373,9 @@ def main(tier, seed):
         "evaluations": evals,
         "distinct_nontrivial": nontrivial,
         "rule": "%d schemas x %d hierarchies of 2-6 entities (trees, diamonds, two roots sharing a subtype; random nestings of ONEOF/AND/ANDOR "
-                "over a random part of the direct subtypes, the rest implicit; ABSTRACT with probability 0.3); ALL subsets of size >= 2 of every "
-                "hierarchy + cross-hierarchy pairs through ComplexCollect::supports(), one child process per query; non-trivial = hierarchy "
+                "over a random part of the direct subtypes, the rest implicit; ABSTRACT with probability 0.3) + 9 flat hierarchies (one supertype over 3-4 "
+                "subtypes) with every operator nested directly inside every operator; ALL non-empty subsets of every "
+                "hierarchy + cross-hierarchy pairs through ComplexCollect::supports() (single entities through the STEPcomplex constructor), one child process per query; non-trivial = hierarchy "
                 "with both legal and illegal subsets" % (nschemas, per_schema),
         "exhaustive": True,
         "samples": samples or ["(none)"],
